@@ -295,3 +295,76 @@ Proof.
   - apply Ho. lia.
   - unfold lfn_chk_ok. apply forallb_forall. intros s Hs. rewrite Forall_forall in Hf. destruct (Hf s Hs) as (_ & _ & _ & _ & _ & Hc). rewrite Hc. apply Z.eqb_refl.
 Qed.
+
+(** * stability: what the reader returns can be written again unchanged, and found by name *)
+Lemma ins_desc_head s l : Forall (fun y => l_ord y < l_ord s) l -> ins_desc s l = s :: l.
+Proof. intros H. destruct l as [|x r]; [reflexivity|]. cbn [ins_desc]. inversion H as [|? ? Hx _]; subst. apply Z.ltb_lt in Hx. rewrite Hx. reflexivity. Qed.
+Lemma sort_desc_rev l : asc l -> sort_desc (rev l) = rev l.
+Proof.
+  (* rev l is descending: each element is larger than everything behind it *)
+  intros H. unfold sort_desc.
+  assert (G : forall d, (forall a b, d = a ++ b -> forall x y, In x a -> In y b -> l_ord y < l_ord x) -> fold_right ins_desc [] d = d).
+  { induction d as [|x r IH]; intros Hd; [reflexivity|]. cbn [fold_right]. rewrite IH.
+    - apply ins_desc_head. apply Forall_forall. intros y Hy. apply (Hd [x] r eq_refl x y); [left; reflexivity|exact Hy].
+    - intros a b E x0 y0 Hx0 Hy0. apply (Hd (x :: a) b); [rewrite E; reflexivity|right; exact Hx0|exact Hy0]. }
+  apply G. intros a b E x y Hx Hy.
+  assert (E' : l = rev b ++ rev a) by (rewrite <- rev_app_distr, <- E, rev_involutive; reflexivity).
+  rewrite E' in H. clear - H Hx Hy. apply in_rev in Hx. apply in_rev in Hy.
+  revert H Hy. generalize (rev b). intros l0. induction l0 as [|z q IH]; intros H Hy; [destruct Hy|].
+  cbn [app] in H. inversion H as [|? ? Hs Hf]; subst. destruct Hy as [->|Hy]; [|apply IH; assumption].
+  rewrite Forall_forall in Hf. apply Hf. apply in_or_app. right. exact Hx.
+Qed.
+Lemma ser_dirent_canon e : entry_ok e -> ser_dirent (canon e) = ser_dirent e.
+Proof.
+  intros (_ & Hl). unfold ser_dirent, canon. destruct (d_lfn e) as [sl|] eqn:El; [|rewrite El; reflexivity].
+  destruct Hl as (Ha & _). cbn [d_lfn set_lfn]. rewrite (sort_desc_rev sl Ha), (sort_desc_asc sl Ha).
+  replace (ser_short (set_lfn e (Some (rev sl)))) with (ser_short e) by (destruct e; reflexivity). reflexivity.
+Qed.
+Lemma ser_dir_canon es : Forall entry_ok es -> ser_dir (map canon es) = ser_dir es.
+Proof.
+  induction 1 as [|e r He Hr IH]; [reflexivity|]. unfold ser_dir in *. cbn [map flat_map]. rewrite IH, ser_dirent_canon by exact He. reflexivity.
+Qed.
+(** reading what was written from reader-form entries gives the same reader-form entries *)
+Theorem read_write_read_stable es k f : Forall entry_ok es -> (0 < k)%nat ->
+  scan_slots (nslots_dir es + S f) (ser_dir (map canon es) ++ repeat 0 (32 * k)) [] [] = Ok (map canon es, [], true).
+Proof. intros H Hk. rewrite ser_dir_canon by exact H. apply read_what_was_written; assumption. Qed.
+
+Lemma list_eqb_refl l : list_eqb l l = true.
+Proof. induction l as [|x r IH]; [reflexivity|]. cbn [list_eqb]. rewrite Z.eqb_refl, IH. reflexivity. Qed.
+Lemma ins_asc_head s l : Forall (fun y => l_ord s < l_ord y) l -> ins_asc s l = s :: l.
+Proof. intros H. destruct l as [|x r]; [reflexivity|]. cbn [ins_asc]. inversion H as [|? ? Hx _]; subst. apply Z.ltb_lt in Hx. rewrite Hx. reflexivity. Qed.
+Lemma sort_asc_id l : asc l -> sort_asc l = l.
+Proof. induction 1 as [|x r Hs IH Hf]; [reflexivity|]. unfold sort_asc in *. cbn [fold_right]. rewrite IH. apply ins_asc_head. exact Hf. Qed.
+Lemma lfn_units_rev sl : asc sl -> lfn_units (rev sl) = lfn_units sl.
+Proof. intros H. unfold lfn_units. rewrite (sort_asc_rev sl H), (sort_asc_id sl H). reflexivity. Qed.
+
+(** a name created with a long-name set is found again under that name and shown unchanged — also in the form the
+    reader returns it *)
+Theorem long_name_found u sfn n e0 : Forall unit_ok u -> 1 <= lenZ u <= 255 -> n_u n = u ->
+  let e := set_lfn e0 (Some (make_lfn u sfn)) in
+  name_matches n e = true /\ name_matches n (canon e) = true /\ shown_name e = NLong u /\ shown_name (canon e) = NLong u.
+Proof.
+  intros Hu Hl Hn e. destruct (lfn_roundtrip u sfn Hu Hl) as (Hunits & _ & _ & Hasc & _).
+  assert (Hc : canon e = set_lfn e0 (Some (rev (make_lfn u sfn)))) by (unfold canon, e; destruct e0; reflexivity).
+  unfold name_matches, shown_name. rewrite Hc. unfold e. replace (d_lfn (set_lfn e0 (Some (make_lfn u sfn)))) with (Some (make_lfn u sfn)) by (destruct e0; reflexivity).
+  replace (d_lfn (set_lfn e0 (Some (rev (make_lfn u sfn))))) with (Some (rev (make_lfn u sfn))) by (destruct e0; reflexivity).
+  rewrite (lfn_units_rev _ Hasc), Hunits, Hn, list_eqb_refl. cbn [orb]. repeat split; reflexivity.
+Qed.
+Theorem found_in_extended_dir es n e : search_entry es n = None -> name_matches n e = true -> is_special e = false -> is_volid e = false ->
+  search_entry (es ++ [e]) n = Some e.
+Proof.
+  intros Hs Hm Hsp Hv. unfold search_entry in *.
+  destruct (find (name_matches n) (ge_dirs es ++ ge_files es)) eqn:E1; [discriminate|].
+  assert (Hd : ge_dirs (es ++ [e]) = ge_dirs es ++ ge_dirs [e]) by (unfold ge_dirs; apply filter_app).
+  assert (Hf : ge_files (es ++ [e]) = ge_files es ++ ge_files [e]) by (unfold ge_files; apply filter_app).
+  rewrite Hd, Hf.
+  assert (Hn1 : find (name_matches n) (ge_dirs es) = None /\ find (name_matches n) (ge_files es) = None).
+  { clear - E1. revert E1. generalize (ge_files es). induction (ge_dirs es) as [|x r IH]; intros fl H; cbn [app find] in *.
+    - split; [reflexivity|exact H].
+    - destruct (name_matches n x); [discriminate|]. apply IH. exact H. }
+  destruct Hn1 as [Hnd Hnf].
+  assert (Hfa : forall a b, find (name_matches n) (a ++ b) = match find (name_matches n) a with Some x => Some x | None => find (name_matches n) b end).
+  { intros a b. induction a as [|x r IH]; [reflexivity|]. cbn [app find]. destruct (name_matches n x); [reflexivity|exact IH]. }
+  unfold ge_dirs at 2, ge_files at 2. cbn [filter]. rewrite Hsp, Hv. cbn [orb negb andb].
+  destruct (is_dir e); cbn [negb]; rewrite !Hfa, Hnd; cbn [find]; rewrite ?Hm, ?Hnf; cbn [find]; rewrite ?Hm; reflexivity.
+Qed.
